@@ -1,5 +1,6 @@
 import Driver.Common
 import IoraModel.Model.KvStore
+import IoraModel.Model.JsonFileStore
 /-! `iora_model kv`: line-protocol driver of the KVStore model (C11, C12).  Same protocol as `harness/kv_common.hpp`. -/
 namespace Iora.Driver.Kv
 open Iora Iora.Kv Iora.Driver
@@ -8,6 +9,8 @@ structure St where
   cfg : Cfg := { lim := Lim.gen, crc := crc32, maxCache := 1000, maxLog := 10485760, inlineCompact := true }
   w : W := {}
   live : Bool := false
+  /-- the directory before the last step (for `crashat`) -/
+  prevFs : Fs := {}
 
 def fname : F → String
   | .snap => "snap" | .log => "log" | .tmp => "tmp"
@@ -85,7 +88,11 @@ def errLoad : LoadErr → String
 
 def doOp (st : St) (op : Op) : St × String :=
   let (w, out) := Kv.step st.cfg st.w op
-  ({ st with w := w }, s!"{showOut out} | {showTr w.tr}")
+  ({ st with w := w, prevFs := st.w.fs }, s!"{showOut out} | {showTr w.tr}")
+
+def showOptHex : Option Bytes → String
+  | none => "none"
+  | some b => toHex b
 
 def step (st : St) (toks0 : List String) : St × String :=
   let toks := match toks0 with
@@ -99,16 +106,21 @@ def step (st : St) (toks0 : List String) : St × String :=
       let (w, out) := opOpen cfg { now := now }
       ({ cfg := cfg, w := w, live := true }, s!"{showOut out} | {showTr w.tr}")
     | _, _, _, _ => (st, "bad-op")
-  | ["loadimg", now, snap, log] =>
-    match now.toInt?, optHex snap, optHex log with
-    | some now, some snap, some log =>
-      let fs : Fs := { snap := snap, log := log }
-      match openStore st.cfg.lim st.cfg.crc fs now with
-      | .error e => (st, s!"err:{errLoad e}")
-      | .ok (ls, ops) =>
-        let fs' := applyAll fs ops
-        (st, s!"ok {showLState ls.kv ls.exp} loglen={(fs'.log.getD []).length}")
-    | _, _, _ => (st, "bad-op")
+  | ["crashimg", mc, ml, ic, now, snap, log, tmp] =>
+    -- a new process on a crash image given as bytes: constructor (load + openLogFile + postLoadArm)
+    match mc.toNat?, ml.toNat?, parseBit ic, now.toInt?, optHex snap, optHex log, optHex tmp with
+    | some mc, some ml, some ic, some now, some snap, some log, some tmp =>
+      let cfg : Cfg := { lim := Lim.gen, crc := crc32, maxCache := mc, maxLog := ml, inlineCompact := ic }
+      let (w, out) := opOpen cfg { fs := { snap := snap, log := log, tmp := tmp }, now := now }
+      match out with
+      | .ok => ({ cfg := cfg, w := w, live := true }, s!"ok | {showTr w.tr}")
+      | _ => ({ cfg := cfg, w := w, live := false }, s!"{showOut out} | -")
+    | _, _, _, _, _, _, _ => (st, "bad-op")
+  | ["jflush", d] =>
+    -- JsonFileStore::saveToFile on text `d`: the file operations it issues
+    match ofHex d with
+    | some d => (st, s!"ok | {showTr (Iora.Jfs.saveToFile d)}")
+    | none => (st, "bad-op")
   | _ =>
   if !st.live then (st, "bad-op") else
   match toks with
@@ -169,7 +181,15 @@ def step (st : St) (toks0 : List String) : St × String :=
     | some p, some ks => (st, showRead st.w.mem st.w.now p ks)
     | _, _ => (st, "bad-op")
   | ["state"] => (st, showState st.w.mem)
+  | ["crashat", k, cut] =>
+    -- the crash image `crashImage` of the last step's file operations (model only)
+    match k.toNat?, cut.toNat? with
+    | some k, some cut =>
+      let img := crashImage st.prevFs st.w.tr k cut
+      (st, s!"img {showOptHex img.snap} {showOptHex img.log} {showOptHex img.tmp}")
+    | _, _ => (st, "bad-op")
   | ["sleep", _] => (st, "ok")
+  | ["stats"] => (st, "stats")
   | _ => (st, "bad-op")
 
 def main : IO Unit := runLines ({} : St) step
